@@ -128,6 +128,25 @@ pub fn compare(c: &Case, full: &ObsVoronoi, kappa: &[(f64, f64, f64)], mask: &[b
     if it.next().is_some() {
         return Err("cells_iter yields more cells than the mask selects".into());
     }
+    // the symmetric face integrals of the partial integrator follow the same bookkeeping rule as
+    // the stored faces of the partial tessellation: same multiset of (left, right, shift)
+    {
+        use meshless_voronoi::integrals::AreaCentroidIntegral;
+        let mut a: Vec<(usize, Option<usize>, Option<[u64; 3]>)> = vi
+            .compute_face_integrals_sym::<AreaCentroidIntegral>()
+            .iter()
+            .map(|f| (f.left(), f.right(), f.shift().map(|s| [(s.x + 0.).to_bits(), (s.y + 0.).to_bits(), (s.z + 0.).to_bits()])))
+            .collect();
+        let mut b: Vec<(usize, Option<usize>, Option<[u64; 3]>)> = part.faces.iter().map(|f| (f.left, f.right, f.shift.map(|s| [(s[0] + 0.).to_bits(), (s[1] + 0.).to_bits(), (s[2] + 0.).to_bits()]))).collect();
+        a.sort();
+        b.sort();
+        if a != b {
+            let only_a: Vec<_> = a.iter().filter(|x| !b.contains(x)).take(3).collect();
+            let only_b: Vec<_> = b.iter().filter(|x| !a.contains(x)).take(3).collect();
+            return Err(format!("the symmetric face integrals of the partial integrator and the stored faces of build_partial are different sets of (left, right, shift): only in the integrals {:?}, only in the stored faces {:?}", only_a, only_b));
+        }
+        cs.count("sym_integral_face_sets_compared", 1);
+    }
     // stored faces
     let mut seen: BTreeMap<(usize, Key), usize> = BTreeMap::new();
     for f in &part.faces {
